@@ -128,10 +128,12 @@ def _build_solver(BacktrackSolver, problem, cfg, stack_max_height, decision_doma
     if decision_domains is not None:
         kw["decision_domains"] = decision_domains
     # defaults are left to the constructor (its mutable default arguments are part of what is under test)
+    from sim.gen import expand_table
+
     if cfg["var_params"] != [[]]:
-        kw["var_heuristic_params"] = copy.deepcopy(cfg["var_params"])
+        kw["var_heuristic_params"] = copy.deepcopy(expand_table(cfg["var_params"]))
     if cfg["dom_params"] != [[]]:
-        kw["dom_heuristic_params"] = copy.deepcopy(cfg["dom_params"])
+        kw["dom_heuristic_params"] = copy.deepcopy(expand_table(cfg["dom_params"]))
     if cfg["cons"] != 0:
         kw["consistency_alg_idx"] = cfg["cons"]
     if cfg["var_h"] != 0:
